@@ -42,6 +42,7 @@ func (j fakeJanitor) AlwaysTry() bool { return j.always }
 type asmPart struct {
 	id                               int
 	always, unpackF, parentF, placeF bool
+	mount                            bool // a mount-type input (placed by BindPlacer directly) whose host source does not exist
 }
 
 // asm15Exec: recipe "asm15 <failing janitor ids|-> <id,alwaysTry,unpackF,parentF,placeF;...> <listing order>"
@@ -62,7 +63,7 @@ func asm15Exec(c *Ctx, op string) {
 		x := strings.Split(t, ",")
 		var id int
 		fmt.Sscan(x[0], &id)
-		parts = append(parts, asmPart{id, x[1] == "1", x[2] == "1", x[3] == "1", x[4] == "1"})
+		parts = append(parts, asmPart{id, x[1] == "1", x[2] == "1", x[3] == "1", x[4] != "0", x[4] == "2"})
 	}
 	var order []int
 	for _, t := range strings.Split(f[3], ",") {
@@ -115,6 +116,10 @@ func asm15Exec(c *Ctx, op string) {
 		p := parts[i]
 		h := fmt.Sprintf("hash%07d", p.id)
 		byWare[h] = p
+		if p.mount {
+			specs = append(specs, stitch.UnpackSpec{Path: fs.MustAbsolutePath(pathOf(p)), WareID: api.WareID{Type: "mount", Hash: "rw:" + filepath.Join(base, "no-such-host-dir")}})
+			continue
+		}
 		specs = append(specs, stitch.UnpackSpec{Path: fs.MustAbsolutePath(pathOf(p)), WareID: api.WareID{Type: "tar", Hash: h},
 			Filters: api.FilesetUnpackFilter_Lossless})
 	}
@@ -137,6 +142,27 @@ func asm15Exec(c *Ctx, op string) {
 		res = "failed"
 	}
 	runLog := append([]string(nil), log...)
+	// a mount-type input is placed by placer.BindPlacer directly, not through the injected tool: when the run failed at
+	// such an input, its placement attempt is entered into the event list where the tool would have logged it
+	if res == "failed" {
+		anyUF := false
+		for _, p := range parts {
+			anyUF = anyUF || p.unpackF
+		}
+		for _, p := range parts {
+			if p.parentF || (p.placeF && !p.mount) {
+				break
+			}
+			if p.mount && !anyUF {
+				k := 0
+				for k < len(runLog) && strings.HasPrefix(runLog[k], "X") {
+					k++
+				}
+				runLog = append(runLog[:k:k], append([]string{fmt.Sprintf("X%d", p.id)}, runLog[k:]...)...)
+				break
+			}
+		}
+	}
 	out := fmt.Sprintf("evs=%s res=%s", strings.Join(runLog, ","), res)
 	var tdLog []string
 	tdErr := false
@@ -147,7 +173,7 @@ func asm15Exec(c *Ctx, op string) {
 		tdErr = terr != nil
 		out += fmt.Sprintf(" td=%s tderr=%v", strings.Join(tdLog, ","), tdErr)
 	}
-	c.EmitR(op, "asm15 "+f[1]+" "+f[2], out)
+	c.EmitR(op, "asm15 "+f[1]+" "+strings.ReplaceAll(f[2], ",2", ",1"), out)
 	// ---- C15 oracle, written directly from the property statement (independent of the Lean model) ----
 	// which inputs got placed before the first failing step
 	var placed []asmPart
@@ -263,6 +289,8 @@ func asm15Engine(c *Ctx) {
 					p = "1"
 				case 3:
 					x = "1"
+				case 4:
+					x = "2"
 				}
 			}
 			ps = append(ps, fmt.Sprintf("%d,%d,%s,%s,%s", i, (always>>uint(i))&1, u, p, x))
@@ -289,7 +317,7 @@ func asm15Engine(c *Ctx) {
 		for always := 0; always < 1<<uint(n); always++ {
 			for tdmask := 0; tdmask < 1<<uint(n); tdmask++ {
 				emit(n, always, 0, -1, tdmask)
-				for step := 1; step <= 3; step++ {
+				for step := 1; step <= 4; step++ {
 					for idx := 0; idx < n; idx++ {
 						emit(n, always, step, idx, tdmask)
 					}
@@ -303,7 +331,7 @@ func asm15Engine(c *Ctx) {
 		k = 1500
 	}
 	for i := 0; i < k; i++ {
-		step := c.Intn(4)
+		step := c.Intn(5)
 		idx := -1
 		if step > 0 {
 			idx = c.Intn(5)
